@@ -523,7 +523,7 @@ class SubmitSm(Trackable, SmppMessage):
                 ie_id: int
                 udh_len, ie_id = unpack_from('!BB', raw_message, 0)
                 if ie_id == IE_ID_16BIT:
-                    ref_num = unpack_from('!I', raw_message, 3)[0]
+                    ref_num = unpack_from('!H', raw_message, 3)[0]
                     ind = 5
                 else:
                     ref_num = unpack_from('!B', raw_message, 3)[0]
